@@ -158,6 +158,10 @@ def mk_gaunt(g):
 def mk_pmodel(m):
     k = m["kind"]
     if k == "brems":
+        if m.get("integ"):      # a user-supplied integrator (relative tolerance, orders) instead of the default one
+            from cherab.core.math.integrators import GaussianQuadrature
+            return Bremsstrahlung(gaunt_factor=mk_gaunt(m.get("gaunt")),
+                                  integrator=GaussianQuadrature(relative_tolerance=m["integ"][0], max_order=m["integ"][1]))
         return Bremsstrahlung(gaunt_factor=mk_gaunt(m.get("gaunt")))
     if k == "trp":
         return TotalRadiatedPower(getattr(EL, m["trp"][0]), m["trp"][1])
@@ -308,6 +312,14 @@ def build_scene(rec):
     # a second, different plasma the beam / laser can be re-attached to (never mutated itself)
     s.plasma_b = build_plasma(rec["plasma_b"], s.world, s.mid) if "plasma_b" in rec else None
     s.beam = build_beam(rec["beam"], s.world, s.mid, s.plasma_b if rec["beam"].get("pl") == "b" else s.plasma) if "beam" in rec else None
+    s.aux = None
+    if s.beam is not None and rec["beam"].get("aux"):
+        # a second attenuator wired to the beam through its documented keywords only (not installed as beam.attenuator); it is
+        # sampled directly
+        a = rec["beam"]["aux"]
+        # its plasma and atomic data are its own keyword arguments: they do not follow later changes of the beam's
+        s.aux = SingleRayAttenuator(step=a["step"], clamp_to_zero=a["clamp"], clamp_sigma=a["clamp_sigma"],
+                                    beam=s.beam, plasma=s.plasma_b if a.get("pl") == "b" else s.plasma, atomic_data=mk_ad(a.get("ad", "A")))
     s.laser = build_laser(rec["laser"], s.world, s.mid, s.plasma_b if rec["laser"].get("pl") == "b" else s.plasma) if "laser" in rec else None
     return s
 
@@ -340,6 +352,8 @@ def observe(s, rays, variant=0):
             extra.append(s.beam.density(x, y, z))
             d = s.beam.direction(x, y, z)
             extra.extend([d.x, d.y, d.z])
+            if getattr(s, "aux", None) is not None:
+                extra.append(s.aux.density(x, y, min(z, L)))
     out.append(np.array(extra))
     return out
 
@@ -562,6 +576,19 @@ class PlasmaScene(SceneBase):
             setattr(pl, attr, getattr(pl, attr))
         self._mut("p_reassign:" + attr)
 
+    def pre_p_brems_integrator(self):
+        return self.pre_p_brems_gaunt()
+
+    def do_p_brems_integrator(self, a):
+        """model.integrator = <a new integrator> on a Bremsstrahlung model that may already have emitted"""
+        from cherab.core.math.integrators import GaussianQuadrature
+        for m, obj in zip(self.rec["plasma"]["models"], list(self.live.plasma.models)):
+            if m["kind"] == "brems":
+                m["integ"] = list(a)
+                obj.integrator = GaussianQuadrature(relative_tolerance=a[0], max_order=a[1])
+                break
+        self._mut("p_brems_integrator")
+
     def do_p_models_reattach(self, a):
         """detach all models and attach the very same Python objects again (their caches were filled before)"""
         objs = list(self.live.plasma.models)
@@ -593,6 +620,7 @@ class PlasmaScene(SceneBase):
         "p_models_add": _pmodel,
         "p_models_clear": lambda: st.just(None),
         "p_brems_gaunt": lambda: st.sampled_from([None, 1, 2, "toggle", "toggle", "toggle"]),
+        "p_brems_integrator": lambda: st.tuples(st.sampled_from([1e-5, 1e-7, 1e-3]), st.sampled_from([50, 30, 64])),
         "p_reassign": lambda: st.sampled_from(["atomic_data", "integrator", "b_field", "electron_distribution", "geometry",
                                                "geometry_transform", "composition", "models", "parent", "transform"]),
         "p_models_reattach": lambda: st.sampled_from(["clear-set", "set-same", "reversed"]),
@@ -618,7 +646,8 @@ def beam_cfg(draw):
             "sigma": draw(st.sampled_from([0.05, 0.1])), "divx": draw(st.sampled_from([0.0, 0.5, 2.0])),
             "divy": draw(st.sampled_from([0.0, 0.5, 3.0])), "length": draw(st.sampled_from([1.5, 2.5, 3.2])),
             "ad": draw(st.sampled_from(["A", "B"])), "integ": {"step": draw(_step)},
-            "att": draw(_att()), "models": draw(st.lists(_bmodel(), min_size=1, max_size=2))}
+            "att": draw(_att()), "models": draw(st.lists(_bmodel(), min_size=1, max_size=2)),
+            "aux": draw(st.one_of(st.none(), _att()))}
 
 
 def _resolve_cfg(cfg):
@@ -659,6 +688,8 @@ def beam_params(draw):
             pb["species"].append(draw(_species(need)))
     b = _resolve_cfg(draw(beam_cfg()))
     b["pl"] = draw(st.sampled_from(["a", "a", "b"]))
+    if b.get("aux"):
+        b["aux"] = dict(b["aux"], ad=draw(st.sampled_from(["A", "B"])), pl=draw(st.sampled_from(["a", "a", "b"])))
     return {"mid": draw(_tf()), "plasma": p, "plasma_b": pb, "beam": b, "theme": draw(_theme)}
 
 
@@ -818,6 +849,14 @@ class BeamScene(SceneBase):
             setattr(b, attr, getattr(b, attr))
         self._mut("b_reassign:" + attr)
 
+    def pre_b_aux_step(self):
+        return bool(self.rec["beam"].get("aux"))
+
+    def do_b_aux_step(self, v):
+        self.rec["beam"]["aux"]["step"] = v
+        self.live.aux.step = v
+        self._mut("b_aux_step")
+
     def do_b_att_calculate(self, a):
         """the documented explicit trigger of the attenuation calculation (instead of the lazy one): changes nothing"""
         try:
@@ -866,6 +905,7 @@ class BeamScene(SceneBase):
         "b_reassign": lambda: st.sampled_from(["plasma", "atomic_data", "attenuator", "integrator", "element", "models", "model.line",
                                                "parent", "transform"]),
         "b_att_calculate": lambda: st.just(None),
+        "b_aux_step": lambda: st.sampled_from([0.02, 0.05, 0.11, 0.4]),
         "b_refused": lambda: st.tuples(st.sampled_from(["step", "clamp_sigma", "energy", "power", "temperature", "sigma", "length",
                                                          "divergence_x", "divergence_y"]), st.sampled_from([-0.5, -1.0, -3.0])),
         "b_cx_line": lambda: st.sampled_from([4, 5, 6, 6]),        # 4 and 6: two transitions of the same receiver ion
@@ -1077,7 +1117,7 @@ def _sandwich(cls):
 # set, withdrawn, provider replaced) is met once in thousands of histories.  Half of the histories are therefore restricted to
 # the rules of one theme - mutators acting on the same kind of derived state; the other half use every rule.
 THEMES = {
-    "provider": ("p_ad", "p_brems_gaunt", "p_models", "p_reassign", "p_comp_add", "b_ad", "b_cx_line", "b_bes_line", "b_models",
+    "provider": ("p_ad", "p_brems_gaunt", "p_brems_integrator", "p_models", "p_reassign", "p_comp_add", "b_ad", "b_cx_line", "b_bes_line", "b_models",
                  "b_reassign", "b_element", "b_plasma", "l_models", "l_plasma", "l_reassign", "l_spectrum_swap", "l_profile_swap"),
     "geometry": ("p_geom", "p_gt", "p_parent", "p_tf", "mid_tf", "p_integrator", "p_reassign", "b_tf", "b_parent", "b_length", "b_sigma",
                  "b_div", "b_att", "b_refused", "b_integrator", "b_reassign", "l_tf", "l_parent", "l_profile_set", "l_integrator", "l_reassign"),
